@@ -481,6 +481,12 @@ pub fn run(ctx: &mut Ctx) {
             // one more label: registrable, must stay accepted-or-rejected consistently with the spec
             Case { url: Some(format!("https://www.a.{a}")), android_host: None, rp: Some(format!("a.{a}")), allow_localhost: false, provider: ProviderKind::Default },
         ];
+        if r.kind == RuleKind::Wildcard {
+            // the parent of a wildcard rule may itself be a public suffix (wildcard under wildcard)
+            cases.push(Case { url: Some(format!("https://a.{}", r.name)), android_host: None, rp: Some(r.name.clone()), allow_localhost: false, provider: ProviderKind::Default });
+            cases.push(Case { url: None, android_host: Some(format!("a.b.{}", r.name)), rp: Some(r.name.clone()), allow_localhost: false, provider: ProviderKind::Default });
+            cases.push(Case { url: Some(format!("https://{}", r.name)), android_host: None, rp: None, allow_localhost: false, provider: ProviderKind::Default });
+        }
         if u != a {
             cases.push(Case { url: None, android_host: Some(format!("a.{u}")), rp: Some(u.clone()), allow_localhost: false, provider: ProviderKind::Default });
             cases.push(Case { url: None, android_host: Some(u.clone()), rp: None, allow_localhost: false, provider: ProviderKind::Default });
